@@ -8,7 +8,11 @@ import (
 	"io"
 	"os"
 	"runtime/debug"
+	"runtime/metrics"
 	"strings"
+	"sync"
+	"sync/atomic"
+	"time"
 
 	"github.com/Syuparn/pangaea/ast"
 	"github.com/Syuparn/pangaea/di"
@@ -60,10 +64,55 @@ func panicSite(stack string) string {
 	return "?"
 }
 
+// Watchdog for every evaluation made through evalIn: the evaluation fuel bounds the number of Eval
+// steps, but a loop inside a Go built-in (`[] * 9223372036854775807`, a huge range turned into an array)
+// does not tick. When one evaluation runs longer than the limit or the heap grows beyond the limit, the
+// process flushes what it has answered, writes {"watchdog":"timeout"|"memory"} and exits with status 3;
+// the driver (pv._harness1) records that request as discarded and restarts on the rest.
+var wdSince atomic.Int64 // unix nanos of the running evaluation, 0 when idle
+var wdOnce sync.Once
+
+func wdStart() {
+	wdOnce.Do(func() {
+		limit := 20 * time.Second
+		heapLimit := uint64(3) << 30
+		if v := os.Getenv("PANHARNESS_LIMIT_MS"); v != "" {
+			var ms int
+			fmt.Sscan(v, &ms)
+			if ms > 0 {
+				limit = time.Duration(ms) * time.Millisecond
+			}
+		}
+		go func() {
+			sample := []metrics.Sample{{Name: "/memory/classes/heap/objects:bytes"}}
+			for {
+				time.Sleep(20 * time.Millisecond)
+				t0 := wdSince.Load()
+				if t0 == 0 {
+					continue
+				}
+				metrics.Read(sample)
+				kind := ""
+				if time.Duration(time.Now().UnixNano()-t0) > limit {
+					kind = "timeout"
+				} else if sample[0].Value.Uint64() > heapLimit {
+					kind = "memory"
+				}
+				if kind != "" {
+					stdout.Flush()
+					os.Stdout.WriteString("{\"watchdog\":\"" + kind + "\"}\n")
+					os.Exit(3)
+				}
+			}
+		}()
+	})
+}
+
 // evalIn parses and evaluates src in env (the caller decides which scope).
 func evalIn(src string, env *object.Env, out *bytes.Buffer) (res evalResult) {
 	defer func() {
 		if r := recover(); r != nil {
+			wdSince.Store(0)
 			st := string(debug.Stack())
 			res = evalResult{Kind: "panic", Panic: fmt.Sprint(r), Site: panicSite(st), Stack: truncate(st, 4000), Out: out.String()}
 		}
@@ -72,9 +121,12 @@ func evalIn(src string, env *object.Env, out *bytes.Buffer) (res evalResult) {
 	if err != nil {
 		return evalResult{Kind: "syntax", ErrMsg: err.Error(), Out: out.String()}
 	}
+	wdStart()
+	wdSince.Store(time.Now().UnixNano())
 	evaluator.VerifFuel = evalFuel
 	v := evaluator.Eval(node, env)
 	evaluator.VerifFuel = -1
+	wdSince.Store(0)
 	r := describe(v, out)
 	if r.Kind == "error" && r.ErrMsg == evaluator.VerifOutOfFuelMsg {
 		r.Kind = "fuel"
